@@ -809,3 +809,12 @@ V("Simplex.volume: Cayley-Menger normalisation with 2**n", "C17", SHAPES, "(math
 V("Simplex.volume: Cayley-Menger matrix without the border of ones in the last row", "C17", SHAPES, "        m[-1, :-1] = 1\n        m[:-1, -1] = 1\n", "        m[:-1, -1] = 1\n", "E19.simplex", "Simplex.volume")
 V("Simplex.volume: determinant branch divided by n!", "C17", SHAPES, "            return 1 / math.factorial(n - 1) * abs(det(points))", "            return 1 / math.factorial(n) * abs(det(points))", "E19.simplex", "Simplex.volume")
 V("twin: Simplex.volume with the squared distances summed by einsum-free dot products", "C17", SHAPES, "        distances = np.sum(distances**2, axis=1)", "        distances = np.sum(distances * distances, axis=1)", "silent")
+V("D26 regression: the pencil of lines represented by the base points of the lines", "C11", OPERATORS,
+  "        t = PlaneCollection.from_array(np.conj(from_point.array))\n        a, b, c, d = a.meet(t), b.meet(t), c.meet(t), d.meet(t)\n",
+  "        a, b, c, d = a.base_point, b.base_point, c.base_point, d.base_point\n", "missed")
+V("the pencil of lines cut with the line y = 0 (0/0 for a vertex on the x-axis)", "C11", OPERATORS,
+  "        t = PlaneCollection.from_array(np.conj(from_point.array))\n", "        t = PlaneCollection.from_array(np.array([0, 1, 0]))\n", "E19.cr", "crossratio")
+V("the pencil of lines cut with the line x + y = 0 (0/0 for a vertex on that line: not a coordinate hyperplane)", "C11", OPERATORS,
+  "        t = PlaneCollection.from_array(np.conj(from_point.array))\n", "        t = PlaneCollection.from_array(np.array([1, 1, 0]))\n", "missed")
+V("the pencil of lines cut with the line x = 0 (0/0 for a vertex on the y-axis)", "C11", OPERATORS,
+  "        t = PlaneCollection.from_array(np.conj(from_point.array))\n", "        t = PlaneCollection.from_array(np.array([1, 0, 0]))\n", "E19.cr", "crossratio")
